@@ -87,7 +87,13 @@ fn main() {
                 eprintln!("unknown property {}", prop);
                 2
             }
-            Some(res) => {
+            Some(mut res) => {
+                // a coverage-guided campaign that ran before this process (thorough tier) is part of the evidence
+                if let Ok(p) = std::env::var("VERIF_FUZZ_JSON") {
+                    if let Some(v) = std::fs::read(&p).ok().and_then(|b| serde_json::from_slice::<serde_json::Value>(&b).ok()) {
+                        res.report.extra.insert("libfuzzer_campaign".into(), v);
+                    }
+                }
                 write_evidence(&ctx, &res.report, &res.meta(), started.elapsed().as_secs_f64());
                 conclude(&ctx, &res.report)
             }
